@@ -82,6 +82,15 @@ fn sweep(cx: &Cx, world: &World, mode: SweepMode) -> Value {
     let ents = world.entities();
     let alive: Vec<bool> = hs.iter().map(|&h| ents.is_alive(h)).collect();
     let join: Vec<Value> = (&ents).join().map(hj).collect();
+    // the lending iteration of the entities resource is a separate implementation
+    let joinl: Vec<Value> = {
+        let mut v = vec![];
+        let mut it = (&ents).lend_join();
+        while let Some(e) = it.next() {
+            v.push(hj(e));
+        }
+        v
+    };
     let walive: Vec<u8> = if mode == SweepMode::Full {
         hs.iter()
             .map(|&h| if world.is_alive(h) { 1 } else { 0 })
@@ -91,7 +100,7 @@ fn sweep(cx: &Cx, world: &World, mode: SweepMode) -> Value {
     };
     drop(ents);
     let st: Vec<Value> = cx.stores.iter().map(|s| s.sweep(world, &hs)).collect();
-    json!({"hs": hs.iter().map(|&h| hj(h)).collect::<Vec<_>>(), "alive": alive, "walive": walive, "join": join, "st": st})
+    json!({"hs": hs.iter().map(|&h| hj(h)).collect::<Vec<_>>(), "alive": alive, "walive": walive, "join": join, "joinl": joinl, "st": st})
 }
 
 fn handle(cx: &Cx, k: &Value) -> Option<Entity> {
